@@ -148,6 +148,7 @@ def run_shard(spec, acc):
     dbx = refdb.db()
     rng = gen.rng_for(spec["seed"], ID, spec["name"])
     quick = spec["tier"] == "quick"
+    literal_cases(spec, acc)
     defs = [d for d in dbx.defs if d.supported and d.type in ("Single", "Fast")]
     defs = [d for k, d in enumerate(defs) if k % spec["n"] == spec["i"]]
     n_cases = 40 if quick else 3000
@@ -256,6 +257,41 @@ def run_shard(spec, acc):
             acc.cover("definitions", d.id)
             if acc.evaluations % 401 == 0:
                 acc.sample(w)
+
+
+def literal_cases(spec, acc):
+    """Frames whose data carries byte strings that the code under test mentions literally (start markers, gateway
+    notices, separators ...): data is data, whatever it looks like - every route decodes it alike."""
+    rng = gen.rng_for(spec["seed"], ID, spec["name"], "literals")
+    lits = [b for b in gen.harvested_byte_strings() if 2 <= len(b) <= 13]
+    for k, lit in enumerate(lits):
+        if k % spec["n"] != spec["i"]:
+            continue
+        for pb in gen.proprietary_payloads_with(lit, rng, fast=False):
+            prio, src, dst = rng.randrange(8), rng.randrange(254), 255
+            w = {"definition": "catch-all 65280 / 61184", "pgn": 65280, "prio": prio, "src": src, "dst": dst, "payload_hex": pb.hex(), "literal": lit.hex()}
+            for pgn in (65280, 61184):
+                outs = {n: outcome(fn) for n, fn in single_routes(prio, pgn, src, 17 if pgn == 61184 else 255, pb, rng).items()}
+                msgs = compare(outs, acc, dict(w, pgn=pgn))
+                acc.case((pgn, prio, src, dst, pb) if msgs >= 2 else None)
+                acc.count("single_frame_cases")
+                acc.count("cases_carrying_a_harvested_literal")
+        for pb in gen.proprietary_payloads_with(lit, rng, fast=True):
+            prio, src = rng.randrange(8), rng.randrange(254)
+            for pgn, dst in ((130816, 255), (126720, 44)):
+                frames = wire.fast_frames(pb, rng.randrange(8), 0xFF)
+                D = NMEA2000Decoder
+                routes = {"actisense_whole": lambda: D().decode_actisense_string(wire.actisense_line(prio, pgn, src, dst, pb)),
+                          "ebyte_frames": framewise("ebyte", prio, pgn, src, dst, frames),
+                          "usb_frames": framewise("usb", prio, pgn, src, dst, frames),
+                          "yd_frames": framewise("yd", prio, pgn, src, dst, frames),
+                          "plain_frames": framewise("plain", prio, pgn, src, dst, frames)}
+                outs = {n: outcome(fn) for n, fn in routes.items()}
+                w = {"definition": f"catch-all {pgn}", "pgn": pgn, "prio": prio, "src": src, "dst": dst, "payload_hex": pb.hex(), "literal": lit.hex(), "fast": True}
+                msgs = compare(outs, acc, w)
+                acc.case((pgn, prio, src, dst, pb) if msgs >= 2 else None)
+                acc.count("fast_packet_cases")
+                acc.count("cases_carrying_a_harvested_literal")
 
 
 def replay(w, acc):
